@@ -68,7 +68,11 @@ func drawFault(src *choice.Src, nclients int) *sw.Fault {
 // older stored head; together with a spliced (stale) answer a cached record can then lie beyond the
 // stored head and cannot be validated until the cache entry is dropped. Failing is allowed there;
 // returning or storing unauthenticated data never is.
-var diskFaultKinds = map[string]bool{"cache-bitflip": true, "cache-truncate": true, "cache-write-torn": true, "cache-cross": true, "config-write-error": true}
+// "stale-splice" (a true record served with a validly signed older head that does not cover it) is the
+// other half of that situation: the client authenticates the record against the newer head it holds in
+// memory and caches the spliced answer; if that newer head never reaches the configuration (write error,
+// or a crash between installing it in memory and writing it) the next process cannot validate the entry.
+var diskFaultKinds = map[string]bool{"cache-bitflip": true, "cache-truncate": true, "cache-write-torn": true, "cache-cross": true, "config-write-error": true, "stale-splice": true}
 
 // substitutionKinds deliver an AUTHENTIC record that is not the one asked for. The client accepts and
 // caches it under the requested name (it authenticates records, not their relation to the request), so
